@@ -11,7 +11,7 @@ The single-seed tool that follows the brief literally (apply to /repo, run, undo
 """
 import json, os, subprocess, sys, shutil, time
 
-MX = "/tmp/mx"
+MX = sys.argv[sys.argv.index("--mx") + 1] if "--mx" in sys.argv else "/tmp/mx"
 ROOT = os.path.dirname(os.path.dirname(os.path.abspath(__file__)))
 
 def sh(cmd, cwd=None, timeout=7200, env=None):
